@@ -31,8 +31,8 @@ CLAIMED = {
         "GradientInput) and output_layer runs on dense-relu nets against the Coq net model and against the truncated Keras model. The code as "
         "found ignored output_layer (refuted in Coq, reproduced, fixed).",
    note="Trusted: Coq kernel + vm_compute; hand-written models (checked by correspondence); TF autodiff; tf.norm as Euclidean norm (rational-norm class "
-        "vectors in generated cases); TfLite kind not exercised; metrics share get_inference_function with explainers (dispatch stream) but no metric "
-        "is run end to end with a custom operator here (C14/C15 do with the default one).",
+        "vectors in generated cases); TfLite kind not exercised; metrics share get_inference_function with explainers (dispatch stream) and are run end to "
+        "end with named / Tasks-member / custom operators by the C14 check (Deletion, Insertion).",
    design="5 (C02)", technique="Coq proofs (finite case analysis, order reasoning via lra/nra, list induction) + differential correspondence incl. exhaustive dispatch table"),
  "C09": dict(
    text="Machine-checked proof (Coq 8.16.1, closed under the global context) that an executable Gallina transcription of Rise.explain (loop over mask "
